@@ -5,7 +5,7 @@
    [bterm p q n k] = C(n,k) p^k q^(n-k), [Qsum_range f lo hi] = sum of f over the integers lo..hi. *)
 From MM Require Import Base.Num Base.GFSum Base.GFComb Model.Choose Model.Binom Model.Hyperg
                        Proofs.Choose Proofs.Binom Proofs.Hyperg Check.C06 Proofs.C06Table
-                       Spec.C06Prob Proofs.CheckC06.
+                       Spec.C06Prob Proofs.CheckC06 Proofs.C06Encl.
 From Coq Require Import Qround.
 Local Open Scope Q_scope.
 
@@ -256,4 +256,52 @@ Example C06_check_ok_example :
   check_C06 l1 = verdict V_OK 1087 (-1) [] /\ check_C06 l2 = verdict V_OK 1279 (-1) [] /\
   (match p_line l1 with Some (CBin c, []) => b_n c = 3%Z /\ length (b_items c) = 6%nat | _ => False end) /\
   (match p_line l2 with Some (CHg c, []) => h_N c = 6%Z /\ length (h_items c) = 6%nat | _ => False end).
+Proof. vm_compute. repeat split; reflexivity. Qed.
+
+(* ---------- enclosure mode of the comparator (round 3, group hK) ----------
+   For P (or 1-P) = m within 1e-12 of 0 at large N the exact rational (1-m)^N is out of the comparator's reach
+   (N * log2 (denominator of P) bits); Check/C06.v then compares with PROVED enclosures of the exact
+   probabilities instead (C06_check_ok_sound above covers that path too: its conclusion is unchanged,
+   "within 1e-10 of the exact probability").  The enclosures hold for EVERY n >= 1 and 0 <= p <= 1:
+   Bernoulli's inequality and "probabilities are >= 0 and sum to 1" *)
+Theorem C06_binom_enclosure :
+  (* Bernoulli's inequality *)
+  (forall x k, 0 <= x <= 1 -> 1 - inject_Z (Z.of_nat k) * x <= qpow (1 - x) k) /\
+  (* the enclosure of every probability pr ki = C(n,ki) p^ki (1-p)^(n-ki) and of every lower partial sum
+     (flip = false: m = p, the big atoms are 0 and 1: pr 0 in [1 - n m, 1 - n m + eps], pr 1 in [n m - eps, n m],
+     pr j in [0, eps] for j >= 2, sums in [1 - eps, 1] from j = 1;  flip = true: m = 1 - p, mirrored) *)
+  (forall n p (flip : bool), (1 <= n)%Z -> 0 <= p <= 1 ->
+     let m := if flip then 1 - p else p in
+     (forall ki, (0 <= ki <= n)%Z ->
+        fst (epmf_encl n m flip ki) <= bin_prob n p ki /\ bin_prob n p ki <= snd (epmf_encl n m flip ki)) /\
+     (forall ki, (0 <= ki < n)%Z ->
+        fst (ecdf_encl n m flip ki) <= Qsum_range (bin_prob n p) 0 ki /\
+        Qsum_range (bin_prob n p) 0 ki <= snd (ecdf_encl n m flip ki))) /\
+  (* eps = n (n-1) m^2 is the width of every one of them *)
+  (forall n m flip ki,
+     snd (epmf_encl n m flip ki) - fst (epmf_encl n m flip ki) == encl_eps n m /\
+     snd (ecdf_encl n m flip ki) - fst (ecdf_encl n m flip ki) == encl_eps n m).
+Proof. exact binom_enclosure_all. Qed.
+Print Assumptions C06_binom_enclosure.
+
+Theorem C06_enclosure_mode :
+  (* the mode is entered only with n >= 1 and eps <= 1e-12 *)
+  (forall n p (flip : bool), encl_side n p = Some flip ->
+     (1 <= n)%Z /\ encl_eps n (if flip then 1 - p else p) <= 1 # 1000000000000) /\
+  (* the acceptance test on an enclosure [L, U]:  U - 1e-10 <= q <= L + 1e-10  puts q within 1e-10 of EVERY v in [L, U] *)
+  (forall lu x v, encl_close lu x = true -> fst lu <= v -> v <= snd lu ->
+     exists q, x = XFin q /\ Qabs (q - v) <= tol_abs).
+Proof. exact encl_mode_all. Qed.
+Print Assumptions C06_enclosure_mode.
+
+(* non-vacuity: two accepted lines of a real run in enclosure mode (tag bit 2048): BinomialDist{1000, 2e-13} at
+   k = -1, 0, 1, 2, 998.5, 999, 1000 and BinomialDist{300, 1 - 5e-13} at k = 0, 298, 299, 300; the mode is entered
+   for both (P near 0 / P near 1), not for BinomialDist{170, 2^-40} (the largest case of the exact path) *)
+Example C06_enclosure_example :
+  let l1 := [0x6; 0; 0; 0x3e8; 0x3d4c25c268497682; 0x3deb7cdfd9d7bdbb; 0x3deb7cdfd9d7b7b0; 0x3deb7cdfd9d7bdbb; 0x3eeda88051ea80b2; 0; 0x408f400000000000; 0x3ff0000000000000; 0x7; 0xbff0000000000000; 0; 0; 0; 0x3fefffffffe484d8; 0x3fefffffffe484d8; 0x3ff0000000000000; 0x3deb7cdfd9c02b31; 0x3ff0000000000000; 0x4000000000000000; 0x3bd796959faddf76; 0x3ff0000000000000; 0x408f340000000000; 0; 0x3ff0000000000000; 0x408f380000000000; 0; 0x3ff0000000000000; 0x408f400000000000; 0; 0x3ff0000000000000]%Z in
+  let l2 := [0x6; 0; 0; 0x12c; 0x3fefffffffffee68; 0x4072bffffffff5b1; 0x3de49e1ffffff4aa; 0x4072bffffffff5b1; 0x3ee9af975abab40e; 0; 0x4072c00000000000; 0x3ff0000000000000; 0x4; 0; 0; 0; 0x4072a00000000000; 0x3bca7abed7ff0dbd; 0x3bca7abed804b3fc; 0x4072b00000000000; 0x3de49e1ffff2be46; 0x3de49e1ffff95cfe; 0x4072c00000000000; 0x3fefffffffeb61e0; 0x3ff0000000000000]%Z in
+  check_C06 l1 = verdict V_OK 0x83f (-1) [] /\ check_C06 l2 = verdict V_OK 0x815 (-1) [] /\
+  (match p_line l1 with Some (CBin c, []) => b_n c = 1000%Z /\ encl_side (b_n c) (b_p c) = Some false | _ => False end) /\
+  (match p_line l2 with Some (CBin c, []) => b_n c = 300%Z /\ encl_side (b_n c) (b_p c) = Some true | _ => False end) /\
+  encl_side 170 (1 # 1099511627776) = None.
 Proof. vm_compute. repeat split; reflexivity. Qed.
